@@ -99,6 +99,12 @@ def apply_op(lst, op, validate):
         lst[slice(*op[1])] = vs(op[2])
     elif name == "delslice":
         del lst[slice(*op[1])]
+    elif name == "setslice_fit":
+        # replacement of exactly the size the slice selects (so that extended-slice assignments succeed), built by
+        # cycling the given raw items
+        n_sel = len(range(*slice(*op[1]).indices(len(lst))))
+        raw = op[2] if op[2] else [0]
+        lst[slice(*op[1])] = vs([raw[i % len(raw)] for i in range(n_sel)])
     elif name == "setslice_eq":
         # equal-but-not-identical replacement for the selected items (1 -> 1.0): a builtin list holds the new objects
         sel = list(lst)[slice(*op[1])]
@@ -135,9 +141,11 @@ def apply_op(lst, op, validate):
 def run_single(L, op, ctx, validate=None, tl=None, model=None, vreset=None):
     """One op on a fresh (or given) TraitList against the model. Returns new model."""
     if tl is None:
-        tl = TraitList(range(L))
+        # the grid runs with the COERCING validator and gives new items as digit strings: what is stored and what the
+        # event reports must be the validated ints
+        validate = validate or Validator("coerce")
+        tl = TraitList(range(L), item_validator=validate)
         model = list(range(L))
-        validate = validate or (lambda x: x)
     events = []
     tl.notifiers[:] = [lambda t, i, r, a: events.append((i, list(r), list(a)))]
     before = list(tl)
@@ -171,7 +179,7 @@ def run_single(L, op, ctx, validate=None, tl=None, model=None, vreset=None):
         else:
             val_exc = e2
         # further independent faults of the same call
-        if op[0] in ("setslice", "delslice", "setslice_eq") and op[1][2] == 0:
+        if op[0] in ("setslice", "delslice", "setslice_eq", "setslice_fit") and op[1][2] == 0:
             allowed.add(ValueError)
         if op[0] in ("setslice", "extend", "iadd") and not isinstance(op[-1], list):
             allowed.add(TypeError)
@@ -225,9 +233,9 @@ def grid_ops(case):
     if case["part"] == "int":
         for i in ints:
             yield ["delitem", i]
-            yield ["setitem", i, 99]
+            yield ["setitem", i, "99"]
             yield ["pop", i]
-            yield ["insert", i, 99]
+            yield ["insert", i, "99"]
         for k in (-1, 0, 1, 2, 3, True, False, 0.5, 0.0, -1.0, 2.5, "5", None):
             yield ["imul", k]
         yield ["reverse"]
@@ -237,10 +245,10 @@ def grid_ops(case):
         yield ["pop0"]
         for x in (0, 1, L - 1, L, 99):
             yield ["remove", x]
-        yield ["append", 5]
-        yield ["extend", [5, 6]]
+        yield ["append", "5"]
+        yield ["extend", ["5", 6]]
         yield ["extend", []]
-        yield ["iadd", [7]]
+        yield ["iadd", ["7"]]
         yield ["iadd", []]
     else:
         a = case["start"]
@@ -249,7 +257,7 @@ def grid_ops(case):
             if c != 0:
                 yield ["setslice_eq", [a, bb, c]]
             for m in range(0, L + 3):
-                yield ["setslice", [a, bb, c], list(range(100, 100 + m))]
+                yield ["setslice", [a, bb, c], [str(x) for x in range(100, 100 + m)]]
 
 
 def op_nontrivial(L, op):
@@ -329,6 +337,8 @@ OP = st.one_of(
     st.tuples(st.just("setslice"), st.tuples(OPT_IDX, OPT_IDX, STEP), ITEMS),
     st.tuples(st.just("delslice"), st.tuples(OPT_IDX, OPT_IDX, STEP)),
     st.tuples(st.just("setslice_eq"), st.tuples(OPT_IDX, OPT_IDX, STEP.filter(lambda x: x != 0))),
+    st.tuples(st.just("setslice_fit"), st.tuples(OPT_IDX, OPT_IDX, st.sampled_from([-1, -2, -3, 2, 3, -1, -2])), ITEMS),
+    st.tuples(st.just("setslice_fit"), st.tuples(OPT_IDX, OPT_IDX, st.sampled_from([-1, -2, -3, 2, 3, -1, -2])), ITEMS),
     st.tuples(st.just("insert"), IDX, ITEM),
     st.tuples(st.just("pop"), IDX),
     st.tuples(st.just("pop0")),
@@ -373,7 +383,7 @@ def hist_run(case, ctx):
             except TypeError:
                 continue
         ctx.label("op:" + op[0])
-        if op[0] in ("setslice", "delslice", "setslice_eq"):
+        if op[0] in ("setslice", "delslice", "setslice_eq", "setslice_fit"):
             if op[1][2] not in (None, 1):
                 interesting = True
                 ctx.label("extended-slice")
